@@ -340,6 +340,15 @@ func (s *handlerWriter) Write(buf []byte) (n int, err error) {
 		}
 		if h, ok := s.l.(LogLoggerAware); ok {
 			n, err = h.WriteInternal(context.Background(), s.lvl, pc, buf)
+		} else {
+			// a Logger that cannot take a preformatted line (a decorating or
+			// user-defined Logger): hand the message over as an ordinary
+			// record instead of dropping it.
+			n = len(buf)
+			if n > 0 && buf[n-1] == '\n' {
+				buf = buf[:n-1]
+			}
+			s.l.LogAttrs(context.Background(), s.lvl, string(buf))
 		}
 	}
 	return
